@@ -1120,6 +1120,17 @@ tunnel_dns(int tun_fd, int dns_fd)
 				   20msec still is 50 DNSreq/second... */
 				if (!send_ping_soon || send_ping_soon > 20)
 					send_ping_soon = 20;
+			} else if (outpkt.fragment >= 15) {
+				/* More to send, but fragment numbers have only 4
+				   bits: a 17th fragment would go out as number 0
+				   and look like the start of a packet. The server
+				   cannot reassemble this packet anyway; drop it. */
+				outpkt.offset = 0;
+				outpkt.len = 0;
+				outpkt.sentlen = 0;
+				outchunkresent = 0;
+				if (!send_ping_soon || send_ping_soon > 20)
+					send_ping_soon = 20;
 			} else {
 				/* More to send */
 				outpkt.fragment++;
